@@ -282,3 +282,39 @@ register('C20', title='plots draw the analysis',
          floors={'quick': {'nontrivial': 30, 'classes': {'markers_checked': 2000, 'panels_checked': 100}}, 'thorough': {'nontrivial': 1000}},
          assumptions=['the view is what is actually plotted: the samples of the trace line', 'series identity by drawing order, not colour'],
          quick_shards=8, thorough_shards=16)
+
+
+# ------------------------------------------------------------------------------------------------
+# technique / level texts used by tools/gen_manifest.py
+
+from . import CONFIG  # noqa: E402
+
+_TECH = {
+    'C01': 'runtime monitoring: post-conditions on compute_features / compute_shape_features (row order, tiling, bounds) + independent half-wave reference for "one row per cycle"; totality via a domain predicate; generated workload',
+    'C02': 'runtime monitoring: post-condition on find_extrema against an independently band-passed half-wave reference (explicit scans); recorder on filter_signal localises; generated workload',
+    'C03': 'runtime monitoring: icontract post-condition on find_zerox against a loop reference; exhaustive small scope (all integer signals x all alternating index sequences) + generated extrema',
+    'C04': 'runtime monitoring: post-conditions on compute_shape_features / compute_features recomputing every shape cell from the row\'s cyclepoints and the original signal; independent amp_by_time for band_amp',
+    'C05': 'runtime monitoring: post-conditions on the four burst-feature functions against loop references (average rank by counting, centring-dependent pairing, strict steps); all directions',
+    'C06': 'runtime monitoring: post-condition on detect_bursts_cycles and routing post-condition on compute_features against an explicit threshold-and-run scan; adversarial synthetic tables, exhaustive small patterns, nested-label (monotonicity) pairs',
+    'C07': 'runtime monitoring: post-conditions on compute_burst_fraction / detect_bursts_amp / compute_features(amp) against an independent run of the dual-threshold detector with the documented arguments; recorder on the detector shows the count it received',
+    'C08': 'runtime monitoring: icontract snapshot + post-condition on check_min_burst_cycles against an explicit run scan; exhaustive over all boolean arrays up to a length bound x all m, random long arrays, idempotence by a second monitored call',
+    'C09': 'runtime monitoring (metamorphic pairs): trough-centred run vs renamed / negated / 1-x image of the peak-centred run on the negated signal, cell-wise; definitional oracles of C04/C05/C07 active on both members',
+    'C10': 'runtime monitoring (metamorphic triples): base run vs signal x 2^k vs fs and band x c, exact cell-wise comparison; recorder shows equal sign sequences of the band-passed signals',
+    'C11': 'runtime monitoring of the process pool: worker-side recorder with injected per-row delays (chosen completion orders), start/finish event log, offline checker (exactly-once, own options, observed permutations) + positional comparison with the real per-signal analysis',
+    'C12': 'runtime monitoring of the process pool: worker-side recorder with injected delays on 2-D slices / signals, event log, offline placement checker ([i][j] vs the real per-signal / per-slice analysis; misplaced tables reported with both positions)',
+    'C13': 'runtime monitoring: offline partition checker over the returned epoch tables (conservation: every cycle of the flattened analysis exactly once, in order, in the epoch of its closing extremum, values unchanged, indices shifted) + label rules per option mode',
+    'C14': 'runtime monitoring of call histories with an executable model (shadow of the user\'s settings): after every fit compare with a fresh object and the functional API; recompute_edges vs functional; attribute access; random + exhaustive short histories',
+    'C15': 'runtime monitoring: argument-fingerprint (write sanitizer) wrapper on 30 public functions comparing every argument before / after each call, read-only input arrays, and replay of each call on pristine copies (history independence)',
+    'C16': 'runtime monitoring: icontract snapshot + post-condition on recompute_edges (input untouched, only edge cycles\' consistencies changed to the one-sided reference values, labels = rule on the edited table, bursts only grow); pandas chained-assignment warnings captured as lost-write evidence',
+    'C17': 'runtime monitoring: icontract post-condition on extrema_interpolated_phase evaluating the statement\'s clauses on the returned array; exhaustive small scope (all alternating placements with midpoints) + generated cyclepoints',
+    'C18': 'runtime monitoring: snapshot + post-conditions on limit_df / limit_signal / split_samples_df / drop_samples_df and a provenance-marker checker for flatten_dfs; boundary coincidences decided in rational arithmetic',
+    'C19': 'runtime monitoring of outcomes {returned, ValueError, other} against a decision table written from the docstrings: exhaustive shape x axis x option-structure grid at the group entry points and the checker, parameter probes at / inside / outside each range; call-count monitor on check_kwargs_shape',
+    'C20': 'runtime monitoring: artist inspector over the matplotlib objects produced under Agg (marker series in drawing order, masked highlight line, parameter panels, threshold lines) against the table and signal that were plotted',
+}
+for _p, _t in _TECH.items():
+    if _p in CONFIG:
+        CONFIG[_p]['technique'] = _t
+        CONFIG[_p]['level_text'] = ('Exploration by runtime monitoring: the property held on every monitored execution of the real code that '
+                                    'this workload produced (' + CONFIG[_p]['title'] + '); the evidence file lists evaluations per monitor, input classes, '
+                                    'enumerated sub-spaces and what made a case non-trivial. Nothing is claimed about inputs, option cells, histories or '
+                                    'schedules the workload did not drive; below the floors the run reports INCONCLUSIVE instead of held.')
